@@ -392,7 +392,14 @@ def initialize_pit(net):
     if get_net_option(net, "transient") and get_net_option(net,"simulation_time_step") != 0 and net.converged:
         create_old_pit(net, [TINIT], [TOUTINIT])
 
-    for comp in net['component_list']:
+    components = list(net['component_list'])
+    tables = [comp.table_name() for comp in components]
+    if "valve" in tables and "pipe" in tables and tables.index("valve") < tables.index("pipe"):
+        # valves attached to pipes re-wire the pit entries of these pipes, therefore the pipe
+        # entries have to be written first (relevant if the valve table was created before the
+        # pipe table in a net without default components)
+        components.insert(tables.index("pipe"), components.pop(tables.index("valve")))
+    for comp in components:
         comp.create_pit_node_entries(net, pit["node"])
         comp.create_pit_branch_entries(net, pit["branch"])
         comp.create_component_array(net, pit["components"])
